@@ -168,7 +168,8 @@ fn unsafe_lint(e: &Engine) {
         Err(err) => e.inconclusive(format!("could not run the unsafe_code lint build: {}", err)),
         Ok(o) => {
             let stderr = String::from_utf8_lossy(&o.stderr).to_string();
-            let forbidden = stderr.contains("unsafe_code") && (stderr.contains("error: usage of an `unsafe`") || stderr.contains("error: declaration of an `unsafe`") || stderr.contains("error: implementation of an `unsafe`") || stderr.contains("-F unsafe-code") || stderr.contains("forbid(unsafe_code)"));
+            // rustc: "error: usage of an `unsafe` block ... note: requested on the command line with `-F unsafe-code`"
+            let forbidden = stderr.contains("-F unsafe-code") || stderr.contains("forbid(unsafe_code)") || stderr.lines().any(|l| l.starts_with("error") && l.contains("`unsafe`"));
             if o.status.success() {
                 e.extra("auxiliary_unsafe_code_lint", json!({"cmd": "cargo rustc --lib --features levenshtein -- -F unsafe_code", "result": "compiles: no unsafe code in the library", "wall_s": secs, "note": "compiler lint prescribed by the property's observe_at; not a generated check and not part of the case counts"}));
             } else if forbidden {
@@ -256,6 +257,9 @@ pub fn run(e: &Engine) {
         |c| c.to_json(),
         check_mut,
     );
+    if e.tier == crate::engine::Tier::Thorough {
+        crate::fuzzrun::campaign(e, "open_verify", 3_000_000, 700);
+    }
     unsafe_lint(e);
     for cls in ["rejected", "opened_and_verified", "opened_verify_error", "past_the_length_and_version_gates"] {
         e.require_class(cls, 1);
